@@ -82,12 +82,16 @@ Qed.
 
 Lemma step_SwInv s st : SwInv s -> SwInv (sw_step PerSegment s st).
 Proof.
-  intros I. destruct st as [n| | |w]; cbn [sw_step].
+  intros I. destruct st as [n| | | |w]; cbn [sw_step].
   - destruct I as [L C W]. constructor; cbn [sw_vals sw_seg sw_off sw_waiters chan_of].
     + exact L.
     + unfold chan_val in *. cbn [sw_vals sw_seg]. lia.
+    + intros wt Iw. destruct (W wt Iw) as (A & B & D). repeat split; [exact A|intros E; specialize (B E); lia|exact D].
+  - destruct I as [L C W]. constructor; cbn [sw_vals sw_seg sw_off sw_waiters chan_of].
+    + exact L.
+    + exact C.
     + intros wt Iw. apply in_app_or in Iw. destruct Iw as [Iw|[<-|[]]].
-      * destruct (W wt Iw) as (A & B & D). repeat split; [exact A|intros E; specialize (B E); lia|exact D].
+      * exact (W wt Iw).
       * cbn [w_chan w_target]. repeat split; [lia|lia|lia].
   - exact (publish_SwInv s I).
   - pose proof (publish_SwInv s I) as [L C W].
@@ -111,7 +115,8 @@ Qed.
 (** * waiters are never dropped or renumbered *)
 Lemma step_waiters m s st : exists more, sw_waiters (sw_step m s st) = sw_waiters s ++ more.
 Proof.
-  destruct st as [n| | |w]; cbn [sw_step sw_publish sw_waiters].
+  destruct st as [n| | | |w]; cbn [sw_step sw_publish sw_waiters].
+  - exists []. rewrite app_nil_r. reflexivity.
   - eexists. reflexivity.
   - exists []. rewrite app_nil_r. reflexivity.
   - exists []. rewrite app_nil_r. reflexivity.
@@ -138,7 +143,8 @@ Lemma step_covered s st wt : SwInv s -> In wt (sw_waiters s) -> covered s wt = t
   covered (sw_step PerSegment s st) wt = true.
 Proof.
   intros I Iw Cv. pose proof I as [L C W]. destruct (W wt Iw) as (A & B & D).
-  destruct st as [n| | |w]; cbn [sw_step].
+  destruct st as [n| | | |w]; cbn [sw_step].
+  - exact Cv.
   - exact Cv.
   - exact (publish_covers s wt I Iw).
   - unfold covered, chan_val. cbn [sw_vals]. rewrite app_nth1.
@@ -151,7 +157,7 @@ Lemma sync_covers s st wt : SwInv s -> In wt (sw_waiters s) -> is_sync st = true
   covered (sw_step PerSegment s st) wt = true.
 Proof.
   intros I Iw S. pose proof I as [L C W]. destruct (W wt Iw) as (A & B & D).
-  destruct st as [n| | |w]; try discriminate S; cbn [sw_step].
+  destruct st as [n| | | |w]; try discriminate S; cbn [sw_step].
   - exact (publish_covers s wt I Iw).
   - unfold covered, chan_val. cbn [sw_vals]. rewrite app_nth1.
     + exact (publish_covers s wt I Iw).
@@ -183,24 +189,24 @@ Lemma run_app m a b s : sw_run_from m s (a ++ b) = sw_run_from m (sw_run_from m 
 Proof. unfold sw_run_from. apply fold_left_app. Qed.
 
 (** the waiter created by the reply that follows [pre] *)
-Lemma reply_waiter m pre n :
+Lemma reply_waiter m pre :
   let s0 := sw_run m pre in
-  nth_error (sw_waiters (sw_step m s0 (SReply n))) (next_waiter m pre)
-  = Some (mkWaiter (chan_of m (sw_seg s0)) (sw_off s0 + n)).
+  nth_error (sw_waiters (sw_step m s0 SReply)) (next_waiter m pre)
+  = Some (mkWaiter (chan_of m (sw_seg s0)) (sw_off s0)).
 Proof.
   cbn zeta. unfold next_waiter. cbn [sw_step sw_waiters]. rewrite nth_error_app2 by lia.
   rewrite Nat.sub_diag. reflexivity.
 Qed.
 
-Theorem no_lost_wakeup pre n mid post :
+Theorem no_lost_wakeup pre mid post :
   (exists st, In st mid /\ is_sync st = true) ->
-  poll_ok (sw_run PerSegment (pre ++ SReply n :: mid ++ post)) (next_waiter PerSegment pre) = true.
+  poll_ok (sw_run PerSegment (pre ++ SReply :: mid ++ post)) (next_waiter PerSegment pre) = true.
 Proof.
   intros HS. unfold sw_run. rewrite run_app. fold (sw_run PerSegment pre). set (s0 := sw_run PerSegment pre).
-  cbn [sw_run_from fold_left]. fold (sw_run_from PerSegment (sw_step PerSegment s0 (SReply n)) (mid ++ post)).
-  set (s1 := sw_step PerSegment s0 (SReply n)).
-  pose proof (reply_waiter PerSegment pre n) as NW. cbn zeta in NW. fold s0 in NW. fold s1 in NW.
-  set (wt := mkWaiter (chan_of PerSegment (sw_seg s0)) (sw_off s0 + n)) in *.
+  cbn [sw_run_from fold_left]. fold (sw_run_from PerSegment (sw_step PerSegment s0 SReply) (mid ++ post)).
+  set (s1 := sw_step PerSegment s0 SReply).
+  pose proof (reply_waiter PerSegment pre) as NW. cbn zeta in NW. fold s0 in NW. fold s1 in NW.
+  set (wt := mkWaiter (chan_of PerSegment (sw_seg s0)) (sw_off s0)) in *.
   assert (I1 : SwInv s1) by (apply step_SwInv; apply run_SwInv; exact SwInv_init).
   assert (Iw : In wt (sw_waiters s1)) by (eapply nth_error_In; exact NW).
   unfold poll_ok. rewrite (run_nth PerSegment (mid ++ post) s1 _ wt NW).
@@ -210,54 +216,85 @@ Proof.
   - apply run_sync_covers; assumption.
 Qed.
 
-(** * an acknowledgement needs a sync of its segment after the reply *)
-Lemma not_synced_yet mid : forall s seg0 tgt,
-  SwInv s -> sw_seg s = seg0 -> chan_val s seg0 < tgt ->
-  (exists m1 st m2, mid = m1 ++ st :: m2 /\ is_sync st = true /\ sw_seg (sw_run_from PerSegment s m1) = seg0)
-  \/ (sw_seg (sw_run_from PerSegment s mid) = seg0 /\ chan_val (sw_run_from PerSegment s mid) seg0 < tgt).
+(** a poll that succeeds once succeeds for ever *)
+Theorem covered_forever tr post w :
+  poll_ok (sw_run PerSegment tr) w = true -> poll_ok (sw_run PerSegment (tr ++ post)) w = true.
 Proof.
-  induction mid as [|st mid IH]; intros s seg0 tgt I E Lt.
-  - right. split; assumption.
+  unfold sw_run. rewrite run_app. fold (sw_run PerSegment tr). set (s := sw_run PerSegment tr).
+  assert (I : SwInv s) by (apply run_SwInv; exact SwInv_init).
+  unfold poll_ok. destruct (nth_error (sw_waiters s) w) as [wt|] eqn:E; [|discriminate].
+  intros Cv. rewrite (run_nth PerSegment post s w wt E). apply run_covered; [exact I|eapply nth_error_In; exact E|exact Cv].
+Qed.
+
+(** * an acknowledgement needs a sync of its segment after the write it acknowledges *)
+Lemma not_synced_yet mid : forall s seg0 tgt,
+  SwInv s -> sw_seg s = seg0 -> chan_val s seg0 < tgt -> tgt <= sw_off s ->
+  (exists m1 st m2, mid = m1 ++ st :: m2 /\ is_sync st = true /\ sw_seg (sw_run_from PerSegment s m1) = seg0)
+  \/ (sw_seg (sw_run_from PerSegment s mid) = seg0 /\ chan_val (sw_run_from PerSegment s mid) seg0 < tgt /\
+      tgt <= sw_off (sw_run_from PerSegment s mid)).
+Proof.
+  induction mid as [|st mid IH]; intros s seg0 tgt I E Lt Le.
+  - right. repeat split; assumption.
   - destruct (is_sync st) eqn:S.
     + left. exists [], st, mid. repeat split; [exact S|exact E].
-    + assert (E' : sw_seg (sw_step PerSegment s st) = seg0 /\ chan_val (sw_step PerSegment s st) seg0 = chan_val s seg0).
-      { destruct st; try discriminate S; cbn [sw_step sw_seg]; split; try exact E; reflexivity. }
-      destruct E' as [E1 E2].
+    + assert (E' : sw_seg (sw_step PerSegment s st) = seg0 /\ chan_val (sw_step PerSegment s st) seg0 = chan_val s seg0 /\
+                   sw_off s <= sw_off (sw_step PerSegment s st)).
+      { destruct st; try discriminate S; cbn [sw_step sw_seg sw_off]; repeat split; try exact E; try reflexivity; lia. }
+      destruct E' as (E1 & E2 & E3).
       destruct (IH (sw_step PerSegment s st) seg0 tgt (step_SwInv s st I) E1) as [(m1 & x & m2 & -> & Sx & Es)|R].
       * rewrite E2. exact Lt.
+      * lia.
       * left. exists (st :: m1), x, m2. repeat split; [exact Sx|exact Es].
       * right. exact R.
 Qed.
 
-Theorem ack_after_sync pre n mid :
+Theorem ack_after_sync pre n mid post :
   0 < n ->
-  poll_ok (sw_run PerSegment (pre ++ SReply n :: mid)) (next_waiter PerSegment pre) = true ->
-  exists m1 st m2, mid = m1 ++ st :: m2 /\ is_sync st = true /\
-                   sw_seg (sw_run PerSegment (pre ++ SReply n :: m1)) = sw_seg (sw_run PerSegment pre).
+  poll_ok (sw_run PerSegment (pre ++ SWrite n :: mid ++ SReply :: post)) (next_waiter PerSegment (pre ++ SWrite n :: mid)) = true ->
+  exists m1 st m2, mid ++ SReply :: post = m1 ++ st :: m2 /\ is_sync st = true /\
+                   sw_seg (sw_run PerSegment (pre ++ SWrite n :: m1)) = sw_seg (sw_run PerSegment pre).
 Proof.
-  intros Pn. unfold sw_run. rewrite run_app. fold (sw_run PerSegment pre). set (s0 := sw_run PerSegment pre).
-  cbn [sw_run_from fold_left]. fold (sw_run_from PerSegment (sw_step PerSegment s0 (SReply n)) mid).
-  set (s1 := sw_step PerSegment s0 (SReply n)).
-  pose proof (reply_waiter PerSegment pre n) as NW. cbn zeta in NW. fold s0 in NW. fold s1 in NW.
+  intros Pn.
+  set (s0 := sw_run PerSegment pre). set (s1 := sw_step PerSegment s0 (SWrite n)).
   assert (I0 : SwInv s0) by (apply run_SwInv; exact SwInv_init).
   assert (I1 : SwInv s1) by (apply step_SwInv; exact I0).
-  unfold poll_ok. rewrite (run_nth PerSegment mid s1 _ _ NW). unfold covered. cbn [w_chan w_target chan_of].
-  intros Cv. apply N.leb_le in Cv.
-  destruct (not_synced_yet mid s1 (sw_seg s0) (sw_off s0 + n) I1) as [(m1 & st & m2 & E & S & Es)|[_ Lt]].
-  - reflexivity.
-  - unfold s1, chan_val. cbn [sw_step sw_vals]. pose proof (swi_cur s0 I0) as C. unfold chan_val in C. lia.
-  - exists m1, st, m2. repeat split; [exact E|exact S|].
-    rewrite run_app. cbn [sw_run_from fold_left]. exact Es.
-  - lia.
+  assert (R1 : forall tl, sw_run PerSegment (pre ++ SWrite n :: tl) = sw_run_from PerSegment s1 tl).
+  { intros tl. unfold sw_run. rewrite run_app. reflexivity. }
+  assert (C0 : chan_val s1 (sw_seg s0) < sw_off s0 + n).
+  { unfold s1, chan_val. cbn [sw_step sw_vals]. pose proof (swi_cur s0 I0) as C. unfold chan_val in C. lia. }
+  destruct (not_synced_yet mid s1 (sw_seg s0) (sw_off s0 + n) I1 eq_refl C0 ltac:(unfold s1; cbn; lia))
+    as [(m1 & st & m2 & E & S & Es)|(Es & Lt & Le)].
+  - intros _. exists m1, st, (m2 ++ SReply :: post). rewrite E, <- app_assoc. repeat split; [exact S|].
+    rewrite R1. exact Es.
+  - set (s2 := sw_run_from PerSegment s1 mid) in *.
+    assert (I2 : SwInv s2) by (apply run_SwInv; exact I1).
+    set (s3 := sw_step PerSegment s2 SReply).
+    assert (I3 : SwInv s3) by (apply step_SwInv; exact I2).
+    assert (NW : nth_error (sw_waiters s3) (next_waiter PerSegment (pre ++ SWrite n :: mid))
+                 = Some (mkWaiter (sw_seg s2) (sw_off s2))).
+    { pose proof (reply_waiter PerSegment (pre ++ SWrite n :: mid)) as H. cbn zeta in H. rewrite R1 in H. exact H. }
+    replace (pre ++ SWrite n :: mid ++ SReply :: post) with ((pre ++ SWrite n :: mid) ++ SReply :: post)
+      by (rewrite <- app_assoc; reflexivity).
+    unfold sw_run at 1. rewrite run_app. fold (sw_run PerSegment (pre ++ SWrite n :: mid)). rewrite R1. fold s2.
+    cbn [sw_run_from fold_left]. fold (sw_run_from PerSegment (sw_step PerSegment s2 SReply) post). fold s3.
+    unfold poll_ok. rewrite (run_nth PerSegment post s3 _ _ NW). unfold covered. cbn [w_chan w_target].
+    intros Cv. apply N.leb_le in Cv.
+    destruct (not_synced_yet post s3 (sw_seg s0) (sw_off s0 + n) I3) as [(m1 & st & m2 & E & S & Es')|(Es' & Lt' & _)].
+    + exact Es.
+    + exact Lt.
+    + exact Le.
+    + exists (mid ++ SReply :: m1), st, m2. rewrite E, <- app_assoc. repeat split; [exact S|].
+      rewrite R1, run_app. fold s2. cbn [sw_run_from fold_left]. exact Es'.
+    + rewrite Es in Cv. lia.
 Qed.
 
 (** * bounded number of worker steps under fairness *)
-Theorem bounded_steps k pre n mid :
-  fair k (pre ++ SReply n :: mid) -> (k <= length mid)%nat ->
-  poll_ok (sw_run PerSegment (pre ++ SReply n :: mid)) (next_waiter PerSegment pre) = true.
+Theorem bounded_steps k pre mid :
+  fair k (pre ++ SReply :: mid) -> (k <= length mid)%nat ->
+  poll_ok (sw_run PerSegment (pre ++ SReply :: mid)) (next_waiter PerSegment pre) = true.
 Proof.
   intros F L. rewrite <- (app_nil_r mid). apply no_lost_wakeup.
-  destruct (F (pre ++ [SReply n]) (firstn k mid) (skipn k mid)) as (st & Is & S).
+  destruct (F (pre ++ [SReply]) (firstn k mid) (skipn k mid)) as (st & Is & S).
   - rewrite <- app_assoc. cbn [app]. rewrite firstn_skipn. reflexivity.
   - apply firstn_length_le. exact L.
   - exists st. split; [|exact S]. rewrite <- (firstn_skipn k mid). apply in_or_app. left. exact Is.
@@ -288,12 +325,12 @@ Proof.
 Qed.
 
 (** * the code before the fix (one watch value across rollovers) violates both *)
-Definition shared_early : list sstep := [SReply 1000; SSync; SRoll; SReply 10].
-Definition shared_late : list sstep := [SReply 1000; SRoll; SReply 10; SSync].
+Definition shared_early : list sstep := [SWrite 1000; SReply; SSync; SRoll; SWrite 10; SReply].
+Definition shared_late : list sstep := [SWrite 1000; SReply; SRoll; SWrite 10; SReply; SSync].
 
 (** (a) the waiter of the last reply is satisfied although no sync followed its reply *)
 Lemma shared_ack_before_sync :
-  poll_ok (sw_run Shared shared_early) (next_waiter Shared [SReply 1000; SSync; SRoll]) = true.
+  poll_ok (sw_run Shared shared_early) (next_waiter Shared [SWrite 1000; SReply; SSync; SRoll; SWrite 10]) = true.
 Proof. vm_compute. reflexivity. Qed.
 
 (** (b) waiter 0 replied before a rollover and a sync, yet polling afterwards fails, and keeps
